@@ -1180,4 +1180,162 @@ theorem noSend_tail : Tail NoSend where
   active := fun _ _ h => h
   pending := fun _ _ h => h
 
+/-- Context that only tracks a frame property of (challenges, cd counter). -/
+def ctxF (F : List (NA × Challenge × Nat × Nat) → Nat → Prop) : Ctx where
+  GN := fun _ => True
+  GS := fun _ _ => True
+  SL := fun _ => True
+  GC := fun _ => True
+  GPk := fun _ => True
+  GO := fun _ => True
+  F := F
+  gs_gn := fun _ _ _ => trivial
+  gs_counter := fun _ _ _ _ => trivial
+  gs_await := fun _ _ _ => trivial
+  gc_gn := fun _ _ => trivial
+  go_est_contact := fun _ _ _ _ _ => trivial
+  gpk_msg := fun _ _ _ => trivial
+  gpk_hs := fun _ _ _ _ _ _ => trivial
+  go_failed := fun _ _ => trivial
+  go_expired := fun _ => trivial
+  go_wru := fun _ _ => trivial
+  go_send := fun _ _ _ => trivial
+  go_request := fun _ _ _ _ => trivial
+  go_response := fun _ _ _ _ => trivial
+  go_est := fun _ _ _ _ _ => trivial
+  go_unv := fun _ _ _ => trivial
+  sl_filter := fun _ _ _ => trivial
+  sl_insert := fun _ _ _ => trivial
+  sl_suffix := fun _ _ _ => trivial
+
+
+theorem inv_ctxF {F : List (NA × Challenge × Nat × Nat) → Nat → Prop} {st : St}
+    (h : F st.1.challenges st.1.fresh.cd) : Inv (ctxF F) st :=
+  ⟨fun _ _ => trivial, trivial, fun _ _ => ⟨trivial, trivial⟩, fun _ _ _ _ => trivial,
+    fun _ _ => trivial, h⟩
+
+theorem any_filter_ne_false (l : List (NA × Challenge × Nat × Nat)) (na : NA) :
+    (l.filter (fun x => x.1 != na)).any (fun x => x.1 == na) = false := by
+  rw [List.any_eq_false]
+  intro x hx
+  have := (List.mem_filter.1 hx).2
+  simpa using this
+
+theorem challenge_consumed_aux (c : Cfg) (s : HState) (na : NA) (nonce : Nat) (sig : Sig)
+    (eph : Nat) (record : Option Rec) (ct : Ct) :
+    wp (handleAuthMessage c na nonce sig eph record ct)
+      (fun _ st' => st'.1.challenges.any (·.1 == na) = false ∨
+        (st'.1.sessions = s.sessions ∧ st'.1.active = s.active)) (s, []) := by
+  unfold handleAuthMessage
+  simp only [wp_bind, wp_getS]
+  rcases hf : s.challenges.find? (fun x => x.fst == na) with _ | ⟨k, ch, dl, sq⟩
+  · simp only [hf, wp_pure]; exact Or.inr ⟨by first | rfl | trivial, by first | rfl | trivial⟩
+  simp only [hf, wp_bind, wp_setS]
+  let X := ctxF (fun ch _ => ch = s.challenges.filter (fun x => x.fst != na))
+  have fin : ∀ st' : St, Inv X st' ∧ True → st'.1.challenges.any (·.1 == na) = false ∨
+      (st'.1.sessions = s.sessions ∧ st'.1.active = s.active) := by
+    rintro st' ⟨h', -⟩
+    refine Or.inl ?_
+    have := h'.frame
+    simp only [X, ctxF] at this
+    rw [this]; exact any_filter_ne_false _ _
+  have h0 : Inv X ({ s with challenges := s.challenges.filter (fun x => x.fst != na) }, []) :=
+    inv_ctxF rfl
+  rcases hest : establishFromChallenge c na.id ch sig eph record with _ | _ | ⟨sess, r⟩
+  · simp only [wp_modS]; exact Or.inr ⟨by first | rfl | trivial, by first | rfl | trivial⟩
+  · simp only [wp_bind]
+    refine wp_mono (spec_removeExpected na.addr _ h0) ?_
+    rintro _ st1 ⟨h1, -⟩
+    exact wp_mono (spec_failSession c na _ true st1 h1) (fun _ => fin)
+  · simp only [wp_bind, wp_ite]
+    refine wp_mono (spec_removeExpected na.addr _ h0) ?_
+    rintro _ st1 ⟨h1, -⟩
+    have fin2 : ∀ st : St, Inv X st → wp (newSession c na sess none)
+        (fun _ => wp (handleMessage c na nonce ct) (fun _ st' => st'.1.challenges.any (·.1 == na) = false ∨
+      (st'.1.sessions = s.sessions ∧ st'.1.active = s.active))) st := by
+      intro st2 h2
+      refine wp_mono (spec_newSession c na sess none trivial (fun _ _ => trivial) st2 h2) ?_
+      rintro _ st3 ⟨h3, -⟩
+      exact wp_mono (spec_handleMessage c na nonce ct (fun _ _ => trivial) st3 h3) (fun _ => fin)
+    split
+    · simp only [wp_emit]
+      exact fin2 _ (h1.emit trivial)
+    · simp only [wp_emit]
+      exact fin2 _ (h1.emit trivial)
+
+theorem sessEq_tail (L : List (NA × Session × Nat)) : Tail (fun st => st.1.sessions = L) where
+  failed := fun _ _ _ h => h
+  exempt := fun _ _ h => h
+  active := fun _ _ h => h
+  pending := fun _ _ h => h
+
+theorem filter_any_self (l : List (NA × Session × Nat)) :
+    l.filter (fun e => l.any (·.1 == e.1)) = l := by
+  rw [List.filter_eq_self]
+  intro e he
+  rw [List.any_eq_true]
+  exact ⟨e, he, by simp⟩
+
+theorem filter_any_suffix (pre r : List (NA × Session × Nat)) (na : NA)
+    (hnd : ((pre ++ r).map (·.1)).Nodup) :
+    (pre ++ r).filter (fun e => (r.filter (·.1 != na)).any (·.1 == e.1)) = r.filter (·.1 != na) := by
+  rw [List.map_append] at hnd
+  have hdisj := (List.nodup_append.1 hnd).2.2
+  rw [List.filter_append]
+  have h1 : pre.filter (fun e => (r.filter (·.1 != na)).any (·.1 == e.1)) = [] := by
+    rw [List.filter_eq_nil_iff]
+    intro e he hany
+    rw [List.any_eq_true] at hany
+    obtain ⟨x, hx, hxe⟩ := hany
+    have hxr := (List.mem_filter.1 hx).1
+    exact hdisj e.1 (List.mem_map_of_mem he) x.1 (List.mem_map_of_mem hxr) (beq_iff_eq.1 hxe).symm
+  rw [h1, List.nil_append]
+  apply List.filter_congr
+  intro e he
+  by_cases hk : e.1 = na
+  · have : (e.1 != na) = false := by simp [hk]
+    rw [this, List.any_eq_false]
+    intro x hx
+    have := (List.mem_filter.1 hx).2
+    simp only [bne_iff_ne, ne_eq] at this
+    simp only [beq_iff_eq, hk]; exact this
+  · have : (e.1 != na) = true := by simp [hk]
+    rw [this, List.any_eq_true]
+    exact ⟨e, List.mem_filter.2 ⟨he, this⟩, by simp⟩
+
+theorem stale_aux (c : Cfg) (s : HState) (na : NA) (nonce : Nat) (sig : Sig)
+    (eph : Nat) (record : Option Rec) (ct : Ct)
+    (h : ∀ e ∈ s.challenges, e.1 = na → e.2.1.cd ≠ sig.cd) :
+    wp (handleAuthMessage c na nonce sig eph record ct)
+      (fun _ st' => st'.1.sessions = s.sessions ∨
+        st'.1.sessions = ((popExpired c.sessionTtl s.rt s.sessions).2).filter (·.1 != na)) (s, []) := by
+  unfold handleAuthMessage
+  simp only [wp_bind, wp_getS]
+  rcases hf : s.challenges.find? (fun x => x.fst == na) with _ | ⟨k, ch, dl, sq⟩
+  · simp only [hf, wp_pure]; exact Or.inl (by first | rfl | trivial)
+  simp only [hf, wp_bind, wp_setS]
+  have hk : k = na := by simpa using List.find?_some hf
+  have hcd := h _ (List.mem_of_find?_eq_some hf) hk
+  rcases hest : establishFromChallenge c na.id ch sig eph record with _ | _ | ⟨sess, r⟩
+  · simp only [wp_modS]; exact Or.inl (by first | rfl | trivial)
+  · unfold removeExpected
+    rw [failSession_true]
+    unfold removeExpiredSessions sessRemove
+    simp only [wp_bind, wp_getS, wp_setS, wp_ite, wp_emit, wp_pure, wp_modS]
+    split
+    · exact wp_mono (tail_failSession (sessEq_tail _) c na _ _ rfl) (fun _ _ hh => Or.inr hh)
+    · exact wp_mono (tail_failSession (sessEq_tail _) c na _ _ rfl) (fun _ _ hh => Or.inr hh)
+  · exact absurd (establish_ok c _ ch sig eph record sess r hest).2.2.1.symm hcd
+
+theorem stale_list (f : NA × Session × Nat → NA × Keys) (l L' : List (NA × Session × Nat)) (na : NA)
+    (ttl rt : Nat) (hnd : (l.map (·.1)).Nodup)
+    (h : L' = l ∨ L' = ((popExpired ttl rt l).2).filter (·.1 != na)) :
+    L'.map f = (l.filter (fun e => L'.any (·.1 == e.1))).map f := by
+  rcases h with h | h
+  · rw [h, filter_any_self]
+  · obtain ⟨pre, hpre⟩ := popExpired_suffix ttl rt l
+    generalize (popExpired ttl rt l).2 = r at h hpre
+    subst hpre h
+    rw [filter_any_suffix pre r na hnd]
+
 end Discv5.H.HI
